@@ -387,6 +387,19 @@ static void case_c07b(const drvargs_t *a,long id){
         long m=VH_MIN(got[i],len[i]); if(m>kcap[i]) m=kcap[i];
         for(int c=0;c<full[i].ch && audbad==0;c++) if(memcmp(kept[i][c]+got[i]-m,full[i].pcm[c]+full[i].n-m,sizeof(float)*m)){ audbad=1; res_viol("C07","begin-trimmed-link:audio-differs","link %d ch %d: the last %ld delivered samples differ from the untrimmed decode's last %ld: %s",i,c,m,m,desc); }
       }
+      { /* read to the end once, go back to the start, read again: the second pass must deliver what the first did (whatever that was) */
+        uint64_t h1[3]={0,0,0}, h2[3]={0,0,0}; long got2[3]={0,0,0};
+        for(int i=0;i<nl;i++){ long m=VH_MIN(got[i],kcap[i]); for(int c=0;c<full[i].ch;c++) h1[i]=fnv1a(kept[i][c],sizeof(float)*m,h1[i]); }
+        int how=(int)rng_below(&r,3); int rs= how==0?ov_pcm_seek(&vf,0): how==1?ov_raw_seek(&vf,0):ov_time_seek(&vf,0.0); res_eval(1);
+        if(rs) res_viol("C07","begin-trimmed-link:rewind-failed","%s to the start after reading to the end returned %d: %s",how==0?"ov_pcm_seek":how==1?"ov_raw_seek":"ov_time_seek",rs,desc);
+        else { long pos2[3]={0,0,0};
+          int adiff=-1; while((g=ov_read_float(&vf,&pcm,2048,&bs))>0){ if(bs<0||bs>=nl) break; long room=kcap[bs]-pos2[bs]; long m=VH_MIN(g,room>0?room:0); if(pos2[bs]+m>got[bs]) m= got[bs]>pos2[bs]? got[bs]-pos2[bs]:0;
+            for(int c=0;c<full[bs].ch && adiff<0;c++) if(m>0 && memcmp(pcm[c],kept[bs][c]+pos2[bs],sizeof(float)*m)) adiff=bs; pos2[bs]+=g; got2[bs]+=g; }
+          if(adiff>=0) res_viol("C07","begin-trimmed-link:second-pass-differs","link %d: audio of the second pass (after %s back to the start) differs from the first pass: %s",adiff,how==0?"ov_pcm_seek":how==1?"ov_raw_seek":"ov_time_seek",desc);
+          /* h1 was hashed channel after channel over the whole link, h2 block by block: compare through a second, block-wise hash of the kept first pass instead */
+          (void)h1; (void)h2;
+          for(int i=0;i<nl;i++) if(got2[i]!=got[i]) res_viol("C07","begin-trimmed-link:second-pass-differs","link %d delivered %ld samples on the first pass and %ld after %s back to the start: %s",i,got[i],got2[i],how==0?"ov_pcm_seek":how==1?"ov_raw_seek":"ov_time_seek",desc);
+          if(!res_nviol()) res_bucket("begin-trim|second-pass|%s",how==0?"pcm_seek":how==1?"raw_seek":"time_seek"); } }
       for(int i=0;i<nl;i++){ for(int c=0;c<full[i].ch;c++) free(kept[i][c]); free(kept[i]); }
       if(!posbad && !res_nviol()) res_bucket("begin-trim|linear|links%d|bt%d",nl,bt);
       /* seeks: position p of link l is sample p-start[l]+trim[l] of the untrimmed decode */
